@@ -116,6 +116,14 @@ def gen_assignments(rng, d):
     return {'hdr': h, 'body': b, 'trl': t}
 
 
+def unknown_tag(rng, d):
+    used = set(fc.all_tags(d['hdr'] + d['body'] + d['trl']))
+    while True:
+        t = rng.choice([6, 7, 77777, 123456, rng.randint(1, 99999)])
+        if t not in used and t not in fc.STD_TAGS:
+            return t
+
+
 def mutate_assignments(rng, d, a):
     """outside the property's quantifier (compared for model/implementation agreement only)"""
     a = copy.deepcopy(a)
@@ -133,7 +141,7 @@ def mutate_assignments(rng, d, a):
             return None
         seg[i] = (t, rng.choice([x for x in [('i', 7), ('fl', '1.5'), ('b', True), ('s', 'zz'), ('grp', [])] if x[0] != v[0]]))
     elif kind == 'unknown-tag':
-        seg.insert(rng.randint(0, len(seg)), (rng.choice([7, 77777, 123456]), ('i', 1)))
+        seg.insert(rng.randint(0, len(seg)), (unknown_tag(rng, d), ('i', 1)))
     elif kind == 'bool-in-int':
         ints = [i for i, (t, v) in enumerate(seg) if v[0] == 'i']
         if not ints:
@@ -161,7 +169,7 @@ def mutate_assignments(rng, d, a):
         elif kind == 'empty-instance':
             insts[j] = []
         elif kind == 'nested-unknown':
-            insts[j].insert(rng.randint(0, len(insts[j])), (rng.choice([6, 66666]), ('s', 'q')))
+            insts[j].insert(rng.randint(0, len(insts[j])), (unknown_tag(rng, d), ('s', 'q')))
         else:
             k = rng.randrange(len(insts[j]))
             tt, vv = insts[j][k]
@@ -308,10 +316,39 @@ def offset_of_msgtype(d, m):
     return None
 
 
+def valid_values(entries, seg):
+    """right Python type for the field, text ASCII without SOH, floats finite with a round-tripping repr"""
+    for t, v in seg:
+        e = fc.find_entry(entries, t)
+        if e is None:
+            return False
+        if v[0] == 'grp':
+            if e[0] != 'g' or not all(valid_values(e[3], inst) for inst in v[1]):
+                return False
+            continue
+        if e[0] != 'f':
+            return False
+        want = {'int': 'i', 'float': 'fl', 'bool': 'b', 'char': 's', 'string': 's'}[e[2]]
+        if v[0] != want:
+            return False
+        if v[0] in ('s', 'fl') and not all(ord(c) < 128 and c != '\x01' for c in v[1]):
+            return False
+        if v[0] == 'fl':
+            try:
+                x = float(v[1])
+            except ValueError:
+                return False
+            if x != x or x in (float('inf'), float('-inf')) or repr(x) != v[1]:
+                return False
+    return True
+
+
 def in_domain(d, m):
     """the property's quantifier, decided without the library and without the model"""
     tags = fc.all_tags(d['hdr'] + d['body'] + d['trl'])
     if len(set(tags)) != len(tags):
+        return False
+    if not py_wf(d, m) or not all(valid_values(d[s], m[s]) for s in ('hdr', 'body', 'trl')):
         return False
     ref = fc.ref_encode(d, m)
     off = offset_of_msgtype(d, m)
@@ -656,7 +693,7 @@ def execute_plan(ctx, rng, plan):
                 fc.reregister(built)
             if a_rt is not None:
                 mine, theirs = impl_line(by_name, r), model_line_without_eqd(a_rt)
-                if ' stale-class ' in mine and theirs.endswith('dec-err key'):
+                if theirs.endswith('dec-err key') and mine != theirs and stale_type(by_name, r.get('bytes')):
                     ctx.count('wf:stale-type-skipped')        # MsgType of an earlier dictionary still in Message.Def
                 elif mine != theirs:
                     ctx.disagree(f'fix.rt: model {theirs[:160]} vs implementation {mine[:160]}', rep)
@@ -686,8 +723,10 @@ def execute_plan(ctx, rng, plan):
                 r = impl_rt(by_name, msg)
                 mine, theirs = impl_line(by_name, r), model_line_without_eqd(a_rt)
                 ctx.count(f'mal-rt:{kind}:' + ('enc-err' if 'enc_err' in r else 'dec-err' if 'dec_err' in r else 'ok'))
-                if ' stale-class ' in mine and theirs.endswith('dec-err key'):
+                if theirs.endswith('dec-err key') and mine != theirs and stale_type(by_name, r.get('bytes')):
                     ctx.count('mal-rt:stale-type-skipped')
+                elif mine != theirs and 'float' in sx(fc.mdef_sx(d)) and (float_tokens_differ(theirs, mine) or mine.endswith('dec-err value')):
+                    ctx.count('mal-rt:float-opaque-skipped')     # float(text) is not modelled
                 elif mine != theirs:
                     ctx.disagree(f'fix.rt ({kind}): model {theirs[:160]} vs implementation {mine[:160]}',
                                  rt_replay_dict(mdefs, d, m))
@@ -713,7 +752,7 @@ def execute_plan(ctx, rng, plan):
                         ty = None
             ctx.count(f'dec:{kind}:' + mine.split()[0] + (':' + mine.split()[1] if mine.startswith('err') else ''))
             if a_dec is not None and a_dec != mine:
-                if a_dec == 'err key' and not mine.startswith('err key'):
+                if a_dec == 'err key' and stale_type(by_name, b):
                     ctx.count('dec:stale-type-skipped')      # MsgType of an earlier dictionary still in Message.Def
                     continue
                 if has_float and (mine == 'err value' or float_tokens_differ(a_dec, mine)):
@@ -771,13 +810,31 @@ def run(ctx):
         ctx.notes.append('Lean witness Witness.C13 (fix.witness) replayed on the implementation')
 
 
+def stale_type(by_name, b):
+    """the type `get_msg_type` extracts from `b` is not one of the current dictionary (the process-global `Message.Def`
+    may still know it from an earlier dictionary; the model's registry is the current dictionary only)"""
+    if b is None:
+        return False
+    try:
+        ty = fc.fixmod().Message.get_msg_type(b)
+    except Exception:  # noqa
+        return False
+    return ty not in by_name and ty not in [x['type'] for x in by_name.values()]
+
+
 def float_tokens_differ(a, b):
-    """both answers are `ok …` and differ only inside float tokens (the model keeps the text, Python normalises it)"""
+    """both answers are `ok …` and differ only inside float tokens (the model keeps the text, Python normalises it:
+    `float('3')` prints as `3.0`) and in what follows from that (equality flag, re-encoded bytes)"""
     if not (a.startswith('ok') and b.startswith('ok')):
         return False
     import re
     strip = lambda s: re.sub(r'\(fl \([0-9 ]*\)\)', '(fl)', s)
-    return strip(a) == strip(b)
+    if strip(a) == strip(b):
+        return True
+    pa, pb = parse_sx(a), parse_sx(b)
+    if len(pa) == len(pb) == 7 and pa[:4] == pb[:4]:            # fix.rt: ok bytes n name msg eq re
+        return strip(sx_of(pa[4])) == strip(sx_of(pb[4])) and sx_of(pa[4]) != sx_of(pb[4])
+    return False
 
 
 # ------------------------------------------------------------------ replay
